@@ -1,5 +1,6 @@
 import PynencModel.Props.C09
-open Pynenc.C09
+import PynencModel.Props.C09Announce
+open Pynenc.C09 Pynenc.C09A
 #print axioms ready_eq_definition
 #print axioms wait_graph_invariants
 #print axioms raw_empty_wait_breaks_ready
@@ -7,6 +8,11 @@ open Pynenc.C09
 #print axioms release_clears
 #print axioms announce_on_finished_records_nothing
 #print axioms announce_alone_left_an_edge_on_finished
+#print axioms inv_step
+#print axioms repaired_no_stale_edge
+#print axioms repaired_tracks_open_wait
+#print axioms announce_only_leaves_stale_edge
+#print axioms programs_follow_the_model
 #print axioms blocking_spec
 #print axioms blocking_spec_sql
 #print axioms prefix_facts
